@@ -321,7 +321,31 @@ func genC20(t *rapid.T) *Scenario {
 	note := ""
 	var sc *Scenario
 	storage := map[common.Hash]common.Hash{}
-	switch r := uniform(t, 0, 9, "family"); {
+	switch r := uniform(t, 0, 11, "family"); {
+	case r >= 10:
+		// a standard precompile with a hostile input: length header words of every size
+		pnum := uint64(uniform(t, 1, 9, "stdp"))
+		if forkIndex(fork) < 7 {
+			fork = "Istanbul"
+		}
+		nwords := uniform(t, 0, 7, "stdwords")
+		note = fmt.Sprintf("std-precompile %d big", pnum)
+		var words []*uint256.Int
+		for i := 0; i < nwords; i++ {
+			if chance(t, 70, "stdhost") {
+				words = append(words, uint256.NewInt(pickU64(t, "stdw", 0, 1, 32, 64, 1024, 1<<16, 1<<20, 1<<24, 1<<26)))
+			} else {
+				words = append(words, genWord(t, "stdgw"))
+			}
+		}
+		inLen := uint64(nwords*32 + pickInt(t, "stdtail", 0, 0, 1, 31, 213-32*4))
+		sc = c20Probe(fork, func(a *Asm) {
+			for i, w := range words {
+				a.Push(w).Push(i * 32).Op(MSTORE)
+			}
+			a.Push(1).Push(0x400).Op(MSTORE)
+			a.Push(0x40).Push(0x400).Push(inLen).Push(0).Push(0).Push(pnum).Push(uint64(pickInt(t, "stdgas", 100000, 5000, 200, 1000000))).Op(CALL, POP)
+		}, nil, nil)
 	case r < 3:
 		// VRJNAL over stored strings of generated (also huge) length
 		lens := []uint64{0, 31, 32, 100, 1024, 32768, 1 << 20, 1 << 20, 1 << 24, 1 << 32, 1 << 62}
